@@ -193,6 +193,79 @@ func init() {
 			}
 		}
 		c.Fact("resume.stream_lock_shape", shapes)
+		// ---- fan-out: the context every copy of a server-level notification is sent with (world label FANOUT: each
+		// session's copy is a DETACHED write). notifySessions / notifySubscribedSessions take no context parameter and hand
+		// handleNotify a context derived from context.Background(); ResourceUpdated and Server.notifySessions pass them
+		// nothing that mentions a ctx. A request-derived context here would route a copy by ANOTHER session's request id.
+		fan := map[string]any{}
+		for _, fn := range [][2]string{{"", "notifySessions"}, {"Server", "notifySubscribedSessions"}} {
+			fd := c.Func("mcp", fn[0], fn[1])
+			if fd == nil {
+				c.Errf("resume: %s not found", fn[1])
+				continue
+			}
+			ctxParams := []string{}
+			for _, f := range fd.Type.Params.List {
+				if strings.Contains(c.Src(f.Type), "context.Context") {
+					for _, n := range f.Names {
+						ctxParams = append(ctxParams, n.Name)
+					}
+					if len(f.Names) == 0 {
+						ctxParams = append(ctxParams, "_")
+					}
+				}
+			}
+			// the first argument of handleNotify and every definition / assignment of that identifier in the body
+			sent := "?"
+			ast.Inspect(fd.Body, func(n ast.Node) bool {
+				if ce, ok := n.(*ast.CallExpr); ok && c.Src(ce.Fun) == "handleNotify" && len(ce.Args) > 0 {
+					sent = c.Src(ce.Args[0])
+				}
+				return true
+			})
+			defs := []string{}
+			ast.Inspect(fd.Body, func(n ast.Node) bool {
+				if as, ok := n.(*ast.AssignStmt); ok {
+					for i, l := range as.Lhs {
+						if c.Src(l) == sent {
+							r := as.Rhs[0]
+							if len(as.Rhs) == len(as.Lhs) {
+								r = as.Rhs[i]
+							}
+							defs = append(defs, c.Src(r))
+						}
+					}
+				}
+				return true
+			})
+			fan[fn[1]] = map[string]any{"context_params": ctxParams, "handleNotify_ctx": sent, "ctx_defined_as": defs}
+		}
+		for _, fn := range [][2]string{{"Server", "ResourceUpdated"}, {"Server", "notifySessions"}} {
+			fd := c.Func("mcp", fn[0], fn[1])
+			if fd == nil {
+				c.Errf("resume: Server.%s not found", fn[1])
+				continue
+			}
+			calls := []string{}
+			ast.Inspect(fd.Body, func(n ast.Node) bool {
+				if ce, ok := n.(*ast.CallExpr); ok {
+					f := c.Src(ce.Fun)
+					if f == "notifySessions" || f == "s.notifySubscribedSessions" {
+						withCtx := false
+						for _, a := range ce.Args {
+							src := c.Src(a)
+							if src == "ctx" || strings.Contains(src, "ctx,") || strings.Contains(src, "ctx)") || strings.HasPrefix(src, "context.") {
+								withCtx = true
+							}
+						}
+						calls = append(calls, fmt.Sprintf("%s/%d args/ctx-arg=%v", f, len(ce.Args), withCtx))
+					}
+				}
+				return true
+			})
+			fan["Server."+fn[1]+" calls"] = calls
+		}
+		c.Fact("resume.fanout_context", fan)
 		if fd := c.Func("mcp", "streamableServerConn", "Close"); fd != nil {
 			c.Fact("resume.close_order", resumeSeq(c, fd.Body, map[string]string{
 				"c.mu.Lock()": "c.lock", "defer c.mu.Unlock()": "defer-c.unlock", "c.isDone = true": "isDone", "close(c.done)": "close-done",
